@@ -165,15 +165,14 @@ def check_history(rep, kind, rec, root, seed):
                         rep.nontrivial.add((kind, str(hist), i, w["name"]))
         if not fails:
             continue
-        if i in tainted:
-            what, extra, name = fails[0]
-            rep.add(tainted[i], detail({"object": i, "path": pth[i], "all_disagreements": sorted({f[0] for f in fails}), **extra}),
-                    f"object {i} ({'.'.join(pth[i])}) behind to_rna(): {what}")
-            continue
         for what, extra, name in fails:
-            if name in tainted_rec:
-                rep.add(tainted_rec[name], detail({"object": i, "path": pth[i], "record": name, "disagreement": what, **extra}),
-                        f"record {name} was added through an object behind to_rna(); object {i}: {what}")
+            # behind to_rna() of a displaced view either side can be the one that is wrong: the observer, or the object the
+            # record was added through
+            cands = [k for k in (tainted.get(i), tainted_rec.get(name)) if k]
+            cands.sort(key=lambda k: ":displaced:" not in k)
+            if cands:
+                rep.add(cands[0], detail({"object": i, "path": pth[i], "record": name, "disagreement": what, **extra}),
+                        f"object {i} ({'.'.join(pth[i]) or 'root'}), record {name}, with to_rna() in the history: {what}")
                 continue
             rel = relation(hist, i, name) if name else "-"
             key = f"{kind}:history:{'.'.join(pth[i]) or 'root'}:{rel}:{what}"
